@@ -662,8 +662,13 @@ class Machine(Interp):
 
     def s_While(self, node, fr):
         n = 0
+        nsym = 0
         while True:
             t = yield from self.eval(node.test, fr)
+            if not isinstance(ops.truth_term(t), bool):
+                nsym += 1
+                if nsym > 12:
+                    raise Unsupported("while loop with a symbolic condition does not terminate within 12 iterations")
             if not ops.truth(t):
                 break
             n += 1
@@ -943,9 +948,17 @@ class Machine(Interp):
         # (c) heap effects
         appended = {}  # id(list) -> (list, items)
         idem = []
+        elem_ids = {id(x) for x in seg.items}
+        for x in seg.items:
+            if isinstance(x, tuple):
+                elem_ids |= {id(y) for y in x}
         for e in effects:
             kind, obj = e[0], e[1]
             if id(obj) in allocs:
+                continue
+            if id(obj) in elem_ids or (isinstance(obj, Opaque) and _tag_mentions(obj.tag, j)):
+                # the round's own element is updated in place: a pointwise update of the
+                # segment (the element template now carries the updated state)
                 continue
             if kind == "append":
                 appended.setdefault(id(obj), (obj, []))[1].extend(e[2])
